@@ -146,13 +146,17 @@ def run_grouped(case):
     labels = case.get('labels')
     out = {}
     try:
-        if case.get('common'):
+        if case.get('common') and not all(s.leg.chinfo == sites[0].leg.chinfo and s.leg.chinfo.names == sites[0].leg.chinfo.names
+                                          for s in sites):
+            # GroupedSite(charges='same') requires a common ChargeInfo: documented way is set_common_charges beforehand
             S.set_common_charges(sites, case['common'])
             ch.maps = [gen.site_to_doc_index(s, d) for s, d in zip(sites, ch.docs)]
+            out['used_common'] = True
         gs = S.GroupedSite(sites, labels=labels, charges=pol)
         gs.test_sanity()
     except Exception as e:
-        return {'error': type(e).__name__, 'msg': str(e)[:200], 'tb': traceback.format_exc()[-600:]}
+        return {'error': type(e).__name__, 'msg': str(e)[:200], 'tb': traceback.format_exc()[-600:],
+                'used_common': out.get('used_common', False)}
     labs = labels or [str(i) for i in range(len(sites))]
     dims = [d.dim for d in ch.docs]
     D = int(np.prod(dims))
@@ -218,10 +222,12 @@ def run_corr(case):
         r = {'a': a, 'b': b}
         try:
             C = psi.correlation_function(a, b, **case.get('kwargs', {}))
-            want = np.empty((L, L), dtype=complex)
-            for i in range(L):
-                for j in range(L):
-                    want[i, j] = gen.expect_window(th, orc.term_op(ch.docs, [(a, i), (b, j)]), th)
+            s1 = case.get('kwargs', {}).get('sites1', list(range(L)))
+            s2 = case.get('kwargs', {}).get('sites2', list(range(L)))
+            want = np.empty((len(s1), len(s2)), dtype=complex)
+            for x, i in enumerate(s1):
+                for y, j in enumerate(s2):
+                    want[x, y] = gen.expect_window(th, orc.term_op(ch.docs, [(a, i), (b, j)]), th)
             r['diff'] = float(np.max(np.abs(C - want)))
             r['arg'] = [int(x) for x in np.unravel_index(np.argmax(np.abs(C - want)), C.shape)]
             r['norm'] = float(np.max(np.abs(want)))
